@@ -14,7 +14,7 @@ import gen  # noqa: E402
 
 VERIF = os.path.dirname(HERE)
 UNITS_DIR = os.path.join(VERIF, 'units')
-RLIMIT = 150  # Verus rlimit units (~seconds of Z3 work per function).  Exceeding it is UNDECIDED, never a violation.
+RLIMIT = 300  # Verus rlimit units (~seconds of Z3 work per function).  Exceeding it is UNDECIDED, never a violation.
 
 FAIL_MSGS = ('postcondition not satisfied', 'precondition not satisfied', 'assertion failed',
              'invariant not satisfied', 'possible arithmetic underflow/overflow', 'possible division by zero',
